@@ -9,12 +9,14 @@ pub const NUMS: &[f64] = &[0.0, -0.0, 1.0, -1.0, 0.5, -0.5, 2.5, -2.5, 3.0, -3.0
     4503599627370496.5, 0.1, 0.30000000000000004, 86400000.0, 1e-7, 123456.789, 7.0, -7.0, 2.0, 9007199254740992.0,
     -9007199254740992.0, 1.5, -1.5, 255.0, 127.0, 128.0, 65.0, 4294967296.0, 1e19, -1e19, 0.49999999999999994,
     // integer-type limits: i64::MIN/MAX+1, i32 limits, u32::MAX, 2^64 (casts, integer fast paths, saturation)
-    -9223372036854775808.0, 9223372036854775808.0, 2147483648.0, -2147483648.0, 2147483647.0, 4294967295.0, 18446744073709551616.0, -2147483649.0];
+    -9223372036854775808.0, 9223372036854775808.0, 2147483648.0, -2147483648.0, 2147483647.0, 4294967295.0, 18446744073709551616.0, -2147483649.0, 1e30, -1e30, 9223372036854777856.0];
 pub const STRS: &[&str] = &["", "a", "abc", "9", "10", "9.5", "-0", "1e3", " 1", "nan", "NaN", "inf", "-inf", "+1", ".5", "5.", "1.",
     "0x10", "1_0", "ä", "äb", "z", "A", "true", "1e400", "1e-400", "0.1", "00", "-", "+", ".", "e5", "1e", "1e+", "infinity",
     "Infinity", "INF", "1.5e-3", "١", "0", "1", "false", "a'b", "{x}", "//", "aaa", "aa", "äöü", "e\u{301}", "𝄞x", " ", "\n", "Hello World",
     // line breaks of every convention INSIDE a text (a literal spanning a Windows line break): CR LF, LF CR, lone CR, doubled
-    "a\r\nb", "\r\n", "\n\r", "x\r\n\r\ny\r", "\r", "+inf", "-Infinity"];
+    "a\r\nb", "\r\n", "\n\r", "x\r\n\r\ny\r", "\r", "+inf", "-Infinity",
+    // digit strings at the limits of the integer types (a comparison "done exactly in i64" saturates here); NUL-terminated look-alikes
+    "9223372036854775807", "-9223372036854775808", "9007199254740993", "18446744073709551615", "a\0", "\0"];
 
 pub fn gen_num(r: &mut Rng) -> f64 {
     match r.below(5) {
@@ -74,7 +76,11 @@ pub const FN_NAMES: &[&str] = &["first", "cnt", "bad", "mk", "k", "if_then", "im
 pub fn gen_env(r: &mut Rng) -> EnvDesc {
     let mut d = EnvDesc::default();
     for n in VAR_NAMES { if r.chance(1, 2) { let name = respell(r, n); d.vars.push((name, gen_small_val(r))); } }
-    for f in std_fns() { if r.chance(5, 6) { let mut f = f; f.name = respell(r, &f.name); d.fns.push(f); } }
+    for f in std_fns() { if r.chance(5, 6) { let mut f = f; f.name = respell(r, &f.name);
+        // one name, different functions in different environments (a result remembered across environments shows), different purity
+        if f.beh != "ifthen" && f.beh != "fail" && r.chance(1, 4) { f.beh = (*r.pick(&["first", "last", "cnt", "arr", "k1", "k2"])).to_string(); }
+        if f.beh == "ifthen" && r.chance(1, 8) { f.pure = false; }
+        d.fns.push(f); } }
     d
 }
 
@@ -103,6 +109,21 @@ pub fn loosen_expr(r: &mut Rng, e: &E) -> E {
         E::Ternary { left, middle, right, operator } => E::Ternary { left: bx(loosen_expr(r, left)), middle: bx(loosen_expr(r, middle)), right: bx(loosen_expr(r, right)), operator: *operator },
         E::Array { expressions } => E::Array { expressions: expressions.iter().map(|x| loosen_expr(r, x)).collect() },
         E::Call { name, params } => E::Call { name: name.clone(), params: params.iter().map(|x| loosen_expr(r, x)).collect() },
+        other => other.clone(),
+    }
+}
+/// loosely equal literals that stay SOURCE-EXPRESSIBLE (non-negative finite numbers, booleans, strings)
+pub fn loosen_src_expr(r: &mut Rng, e: &E) -> E {
+    match e {
+        E::Literal { value: V::Number(x) } if *x == 0.0 => lit(if r.chance(1, 2) { V::Boolean(false) } else { V::String("0".into()) }),
+        E::Literal { value: V::Number(x) } if *x == 1.0 => lit(if r.chance(1, 2) { V::Boolean(true) } else { V::String("1".into()) }),
+        E::Literal { value: V::Number(x) } if x.is_finite() => lit(V::String(format!("{}", x))),
+        E::Literal { value: V::Boolean(b) } => lit(V::Number(if *b { 1.0 } else { 0.0 })),
+        E::Literal { value: V::String(s) } => match s.parse::<f64>() { Ok(x) if x.is_finite() && x >= 0.0 && !x.is_sign_negative() => lit(V::Number(x)), _ => e.clone() },
+        E::Unary { right, operator } => E::Unary { right: bx(loosen_src_expr(r, right)), operator: *operator },
+        E::Binary { left, right, operator } => E::Binary { left: bx(loosen_src_expr(r, left)), right: bx(loosen_src_expr(r, right)), operator: *operator },
+        E::Array { expressions } => E::Array { expressions: expressions.iter().map(|x| loosen_src_expr(r, x)).collect() },
+        E::Call { name, params } => E::Call { name: name.clone(), params: params.iter().map(|x| loosen_src_expr(r, x)).collect() },
         other => other.clone(),
     }
 }
@@ -162,6 +183,15 @@ pub fn gen_tree(r: &mut Rng, depth: u32, ill: bool) -> E {
         };
     }
     let d = depth - 1;
+    if r.chance(1, 14) {
+        // `f(ok…, g(ok, undefined) = x, ok…)`: the inner list fails midway, the failure is absorbed by the operator, the outer list goes on
+        let undef = || E::Variable { name: "nope_undefined".into() };
+        let n1 = 1 + r.below(3); let mut inner: Vec<E> = (0..n1).map(|_| gen_tree(r, 0, false)).collect(); inner.push(undef()); if r.chance(1, 2) { inner.push(gen_tree(r, 0, false)); }
+        let failing = if r.chance(2, 3) { E::Call { name: (*r.pick(&["arr", "cnt", "first", "last", "mk"])).to_string(), params: inner } } else { E::Array { expressions: inner } };
+        let absorbed = E::Binary { left: bx(failing), right: bx(gen_tree(r, 0, false)), operator: *r.pick(&[O::Equal, O::NotEqual, O::And, O::Or]) };
+        let mut outer: Vec<E> = (0..r.below(3)).map(|_| gen_tree(r, d.min(1), false)).collect(); let at = r.usize(outer.len() + 1); outer.insert(at, absorbed); if r.chance(1, 2) { outer.push(gen_tree(r, 0, false)); }
+        return if r.chance(2, 3) { E::Call { name: (*r.pick(&["arr", "cnt", "first", "last"])).to_string(), params: outer } } else { E::Array { expressions: outer } };
+    }
     match r.below(12) {
         0 | 1 => E::Unary { right: bx(gen_tree(r, d, ill)), operator: if ill && r.chance(1, 3) { *r.pick(&OPS) } else { *r.pick(&UNOPS) } },
         2..=6 => E::Binary { left: bx(gen_tree(r, d, ill)), right: bx(gen_tree(r, d, ill)),
@@ -227,6 +257,7 @@ pub fn gen_spine_tree(r: &mut Rng, depth: u32) -> E {
         6 => E::Call { name: { let n = *r.pick(FN_NAMES); n.to_string() }, params: vec![lit(V::Number(1.0))] }, _ => gen_tree(r, 1, false) };
     let op = *r.pick(&[O::And, O::Or, O::Plus, O::Equal, O::Xor, O::Less]);
     let cond_lit = r.chance(3, 4);
+    let alt_fixed = if r.chance(1, 2) { Some((*r.pick(&[O::Plus, O::Minus, O::Multiply, O::Less, O::Xor]), *r.pick(&[O::NotEqual, O::Equal, O::And, O::Or, O::NotEqual]), r.chance(2, 3))) } else { None };
     let mut e = leaf;
     for _ in 0..depth {
         let side = |r: &mut Rng| -> E { match r.below(4) { 0 => lit(V::Boolean(true)), 1 => lit(V::Boolean(false)), 2 => lit(V::Number(1.0)), _ => E::Variable { name: (*r.pick(&["a", "T", "x"])).to_string() } } };
@@ -235,11 +266,10 @@ pub fn gen_spine_tree(r: &mut Rng, depth: u32) -> E {
         // shapes 10, 11: TWO node kinds alternating along the left spine, the inner one with an undefined variable (or a failing call) as its
         // right operand, the outer one an operator that absorbs or compares it: work that is repeated per level multiplies along this spine
         if k >= 10 {
-            let inner_op = *r.pick(&[O::Plus, O::Minus, O::Multiply, O::Less, O::Xor]);
-            let outer_op = *r.pick(&[O::NotEqual, O::Equal, O::And, O::Or]);
+            let (inner_op, outer_op, left_side) = alt_fixed.unwrap_or((*r.pick(&[O::Plus, O::Minus, O::Multiply, O::Less, O::Xor]), *r.pick(&[O::NotEqual, O::Equal, O::And, O::Or]), r.chance(1, 2)));
             let bad = if k == 10 { E::Variable { name: "nope_undefined".into() } } else { E::Call { name: "bad".into(), params: vec![] } };
             let zero = lit(V::Number(0.0));
-            e = if r.chance(1, 2) { E::Binary { left: bx(E::Binary { left: bx(e), right: bx(bad), operator: inner_op }), right: bx(zero), operator: outer_op } }
+            e = if left_side { E::Binary { left: bx(E::Binary { left: bx(e), right: bx(bad), operator: inner_op }), right: bx(zero), operator: outer_op } }
                 else { E::Binary { left: bx(zero), right: bx(E::Binary { left: bx(bad), right: bx(e), operator: inner_op }), operator: outer_op } };
             continue;
         }
